@@ -37,7 +37,10 @@ def m_zip_read(ex, st, recv, args, kw):
 def m_zip_close(ex, st, recv, args, kw): st.heap[recv.oid]["closed"] = True; yield st, None
 def m_bytesio(ex, st, fn, args, kw): b = Ref("BytesIO"); st.heap[b.oid] = {}; yield st, b
 def m_parse(ex, st, fn, args, kw):
-    sb = st.copy(); sb.ghost["fault"] = True; yield sb, Raise(ex.new_builtin_exc(sb, "ParseError", ["malformed XML"]))
+    # A-XML: ElementTree.parse on arbitrary bytes raises ParseError (malformed XML), LookupError (unknown declared encoding) or ValueError
+    # (multi-byte encodings not supported by expat); all of them are "malformed content.xml" for the statement of C15
+    for cls in ("ParseError", "LookupError", "ValueError"):
+        sb = st.copy(); sb.ghost["fault"] = True; yield sb, Raise(ex.new_builtin_exc(sb, cls, ["malformed XML"]))
     t = Ref("Tree"); st.heap[t.oid] = {}; yield st, t
 def m_getroot(ex, st, recv, args, kw): yield st, st.ghost["root"]
 def absattr_attrib(ex, st, recv):
@@ -260,6 +263,8 @@ def unit_ods_audit():
                 yield ("not a zip", b"a,b\n1,2\n", None); yield ("no content.xml", None, "nocontent")
                 pos = [m for m in range(len(content)) if content[m] in "<>"]
                 for p_ in pos[::3 if not ctx.thorough else 1]: yield ("content.xml cut at a tag boundary", None, content[:p_])
+                for enc in ("x-no-such-charset", "utf-32", "shift_jis"):
+                    yield ("content.xml declaring the encoding %s" % enc, None, content.replace('encoding="UTF-8"', 'encoding="%s"' % enc, 1))
                 for bad_rep in ("0", "-1", "x", "", "1.5"):
                     yield ("repeat count %r" % bad_rep, None, content.replace("<table:table-cell ", '<table:table-cell table:number-columns-repeated="%s" ' % bad_rep, 1))
                 yield ("missing sheet", None, ("SHEET", content))
@@ -278,7 +283,7 @@ def unit_ods_audit():
                 if label.startswith("content.xml cut") or label.startswith("truncated"): return {"expected": "DataFormatError for %s" % label, "observed": "rows returned"}
                 return {"expected": "DataFormatError for %s" % label, "observed": "rows returned"}
             res.append(sweep("C15/audit/fault injection", fault_cases(), fault_check, "audit",
-                             "archive truncated at every 64th byte, a non-zip file, an archive without content.xml, content.xml cut at every third tag boundary, repeat counts 0 / -1 / x / '' / 1.5, a missing sheet (also with a DDE link's cached table present)",
+                             "archive truncated at every 64th byte, a non-zip file, an archive without content.xml, content.xml cut at every third tag boundary, content.xml declaring an unknown / unsupported encoding, repeat counts 0 / -1 / x / '' / 1.5, a missing sheet (also with a DDE link's cached table present)",
                              describe=lambda c: {"fault": c[0]}, function="rowio.ods_rows", unit="C15.audit", props=["C15", "C06", "C10"]))
             return res
         finally:
